@@ -10,6 +10,7 @@
 -/
 import Heathcliff.Proofs.Codec
 import Heathcliff.Proofs.Sink
+import Heathcliff.Proofs.SinkI
 import Heathcliff.Model.CodecGen
 namespace HC.C15
 open HC.Codec
@@ -115,6 +116,36 @@ theorem modelled_types_lawful :
     fun ctxs e => rnspC_lawful _ (fun c hc => ?_), fun ctxs e => rnspC_lawful _ (fun c hc => ?_), polySerC_lawful⟩
   · obtain ⟨cx, _, rfl⟩ := List.mem_map.mp hc; exact ctC_lawful cx e
   · obtain ⟨cx, _, rfl⟩ := List.mem_map.mp hc; exact kswitchC_lawful _ (ctC_lawful cx e)
+
+/-! ### streams that also report `ErrorKind::Interrupted` (standard `Write` contract: "retry") -/
+
+/-- one `write_all` on a stream that interrupts ANY finite set of calls = `write_all` on the underlying stream: same result, same
+    bytes transmitted, same stream state (so it also terminates: |buf| + #interrupts iterations suffice) -/
+theorem write_all_interrupts_invisible (w : SinkI) (buf : Bytes) :
+    (writeAllI w buf).1 = (writeAll w.s buf).1 ∧ (writeAllI w buf).2.s = (writeAll w.s buf).2 ∧ (writeAllI w buf).2.intr = w.intr :=
+  writeAllI_erase w buf
+
+/-- the serializers as extracted from the source (every scalar writer `write_all`): interrupts are invisible for whole objects -/
+theorem serialize_interrupts_invisible (cs : List Chunk) (w : SinkI) :
+    ((serializeI genWMode cs w).1 = match (serialize genWMode cs w.s).1 with | .ok n => .ok n | .error e => .error (.io e)) ∧
+    (serializeI genWMode cs w).2.s = (serialize genWMode cs w.s).2 :=
+  have h := serializeI_erase genWMode gen_writers_use_write_all cs w
+  ⟨h.1, h.2.1⟩
+
+/-- … hence complete encoding or error also on interrupting, short-writing, failing streams -/
+theorem serialize_faulty_interrupting (cs : List Chunk) (w : SinkI) :
+    (∀ n, (serializeI genWMode cs w).1 = .ok n → n = (flat cs).length ∧ (serializeI genWMode cs w).2.s.out = w.s.out ++ flat cs) ∧
+    (∀ e, (serializeI genWMode cs w).1 = .error e → ∃ j, j ≤ (flat cs).length ∧ (serializeI genWMode cs w).2.s.out = w.s.out ++ (flat cs).take j) :=
+  serializeI_clean genWMode gen_writers_use_write_all cs w
+
+/-- the pinned `stream.write` form would surface an interrupted call as a failed serialization -/
+theorem pinned_writers_not_interrupt_safe :
+    (serializeI (fun _ => .write) (u64C.chunks 578437695752307201) ⟨⟨[8], none, 0, []⟩, [0], 0⟩).1 = .error .interrupted :=
+  pinned_write_interrupt_witness
+
+/-- non-vacuity: three interrupted calls, 3 bytes per call: all 8 bytes delivered, 8 reported -/
+example : serializeI (fun _ => .writeAll) (u64C.chunks 578437695752307201) ⟨⟨[3], none, 0, []⟩, [0, 1, 3], 0⟩
+    = (.ok 8, ⟨⟨[3], none, 3, [1, 2, 3, 4, 5, 6, 7, 8]⟩, [0, 1, 3], 6⟩) := by rfl
 
 /-! ### non-vacuity -/
 
